@@ -26,6 +26,7 @@ ASSUMPTIONS = [
     'candidate objects are builtin kinds (None,bool,int,float,str,bytes,list,tuple,dict with str keys) or opaque objects; '
     'objects implementing numeric/sequence protocols themselves (numpy arrays, EnumMember as number) are outside the model',
     'a non-empty list/tuple offered where a struct is expected is outside the model domain (checked by the oracle only)',
+    'a previous value is None or a value as validate returns it (tuples, ImmutableDict at every depth, enum members)',
 ]
 
 OPS = ['call', 'validate', 'import', 'wire']
@@ -42,12 +43,23 @@ def _exc_name(e):
     return type(e).__name__
 
 
+def _freeze(x):
+    """the value a parameter currently holds was returned by validate: its mappings are ImmutableDict at every depth"""
+    from frappy.datatypes import ImmutableDict
+    if isinstance(x, dict):
+        return ImmutableDict((k, _freeze(v)) for k, v in x.items())
+    if isinstance(x, tuple):
+        return tuple(_freeze(v) for v in x)
+    return x
+
+
 def run_case(case):
     dt = G.build(case['d'])
     v = G.untag(case['v'])
-    prev = G.internalise(dt, case['d'], G.untag(case['prev']))
+    prev = _freeze(G.internalise(dt, case['d'], G.untag(case['prev'])))
     op = case['op']
     res2 = None
+    canon = None
     try:
         if op == 'call':
             r = dt(v)
@@ -59,14 +71,65 @@ def run_case(case):
             r = dt.validate(dt.import_value(v), previous=prev)
         res = ['ok', G.tag(r)]
         if op in ('validate', 'wire'):
+            canon = canon_violation(case['d'], r)
             try:
                 res2 = ['ok', G.tag(dt.validate(r))]
             except Exception as e:
                 res2 = ['err', _exc_name(e)]
     except Exception as e:
         res = ['err', _exc_name(e)]
-    return {'res': res, 'res2': res2, 'gd': G.gal_dtype(case['d'], dt), 'prev': G.tag(prev),
+    return {'res': res, 'res2': res2, 'canon': canon, 'gd': G.gal_dtype(case['d'], dt), 'prev': G.tag(prev),
             'env': G.pyenv_for([case['v'], case['prev']] + ([res[1]] if res[0] == 'ok' else []))}
+
+
+def canon_violation(d, r):
+    """specification side, evaluated on the object the implementation returned (the tagged form does not keep the
+    container classes): the canonical representation kind of the datatype at every depth - double/scaled: float,
+    int: int (not bool), bool: bool, enum: a declared EnumMember, string: str, blob: bytes, array/tuple: tuple (tuple:
+    of the declared length), struct: immutable mapping whose keys are declared members.  None = canonical"""
+    from frappy.datatypes import ImmutableDict
+    from frappy.lib.enum import EnumMember
+    t = d['t']
+    if t in ('float', 'scaled'):
+        ok = type(r) is float
+    elif t == 'int':
+        ok = type(r) is int
+    elif t == 'bool':
+        ok = type(r) is bool
+    elif t == 'enum':
+        ok = isinstance(r, EnumMember) and [r.name, int(r.value)] in [[n, v] for n, v in d['members']]
+    elif t == 'string':
+        ok = type(r) is str
+    elif t == 'blob':
+        ok = type(r) is bytes
+    elif t == 'array':
+        if type(r) is not tuple:
+            return f'array: {type(r).__name__} instead of tuple'
+        for x in r:
+            w = canon_violation(d['elem'], x)
+            if w:
+                return w
+        return None
+    elif t == 'tuple':
+        if type(r) is not tuple or len(r) != len(d['elems']):
+            return f'tuple: {type(r).__name__} of length {len(r) if hasattr(r, "__len__") else "?"}'
+        for dd, x in zip(d['elems'], r):
+            w = canon_violation(dd, x)
+            if w:
+                return w
+        return None
+    else:
+        members = dict(d['members'])
+        if not isinstance(r, ImmutableDict):
+            return f'struct: {type(r).__name__} instead of an immutable mapping'
+        for k, x in r.items():
+            if k not in members:
+                return f'struct: undeclared key {k!r}'
+            w = canon_violation(members[k], x)
+            if w:
+                return w
+        return None
+    return None if ok else f'{t}: {type(r).__name__} {r!r}'
 
 
 EXC = {'RangeError': 'ERange', 'WrongTypeError': 'EWrongType', 'TypeError': 'EType', 'ValueError': 'EValue',
@@ -292,6 +355,8 @@ def oracle(case, obs):
     why = []
     if op != 'call' and not denotes(d, v, r, prev, op, why):
         fails.append({'class': 'reinterpreted', 'what': f'{op}: {why[:1]}'})
+    if obs.get('canon'):
+        fails.append({'class': 'not-canonical', 'what': f'{op}({v!r}) on {d} returned a non-canonical representation: {obs["canon"]}'})
     if obs['res2'] is not None:
         r2 = obs['res2']
         if r2[0] == 'err':
@@ -425,6 +490,22 @@ def f_struct_none_member(case, obs, f):
     return f['class'] in ('out-of-set', 'not-idempotent') and any(bad(t, k, x) for t, k, x in _pairs(case))
 
 
+def f_scaled_huge_grid_revalidate(case, obs, f):
+    """validate(validate(v)) fails / differs at a scaled leaf whose grid index exceeds 2^51 (min - scale rounds to min)"""
+    def huge(d):
+        if d['t'] == 'scaled':
+            s = Fraction(G.dec_float(d['scale']))
+            return s > 0 and max(abs(Fraction(G.dec_float(d['min']))), abs(Fraction(G.dec_float(d['max'])))) >= s * 2 ** 51
+        if d['t'] == 'array':
+            return huge(d['elem'])
+        if d['t'] == 'tuple':
+            return any(huge(x) for x in d['elems'])
+        if d['t'] == 'struct':
+            return any(huge(x) for _, x in d['members'])
+        return False
+    return f['class'] == 'not-idempotent' and huge(case['d'])
+
+
 FINDING_CLASSIFIERS = {
     'import-noniterable-into-sequence': f_import_noniterable,
     'struct-from-nonmapping': f_struct_from_nonmapping,
@@ -435,6 +516,7 @@ FINDING_CLASSIFIERS = {
     'sequence-from-str-or-dict': f_sequence_from_str_or_dict,
     'struct-none-for-mandatory': f_struct_none_member,
     'tuple-import-truncates': f_tuple_import_truncates,
+    'scaled-huge-grid-revalidate': f_scaled_huge_grid_revalidate,
 }
 
 
